@@ -30,8 +30,9 @@ use std::collections::BTreeMap;
 pub struct Opts {
     /// generate `@skip` / `@include`
     pub conditions: bool,
-    /// generate mutations (when the schema has a mutation root)
+    /// generate mutations (when the schema has a mutation root), with this probability of 256
     pub mutations: bool,
+    pub mutation_p: u32,
     /// `__schema` / `__type` on the query root (executed with introspection disabled)
     pub introspection_meta: bool,
     /// probability (of 256) that interfaces without implementing object get one
@@ -43,7 +44,7 @@ pub struct Opts {
 
 impl Default for Opts {
     fn default() -> Self {
-        Opts { conditions: true, mutations: true, introspection_meta: true, fill_abstract_p: 180, max_depth: 4, budget: 28 }
+        Opts { conditions: true, mutations: true, mutation_p: 150, introspection_meta: true, fill_abstract_p: 180, max_depth: 4, budget: 28 }
     }
 }
 
@@ -113,13 +114,14 @@ pub fn schema(c: &mut Choices, o: &Opts) -> (Document, RefSchema) {
         if t.kind != TypeKind::Object || t.is_ext {
             continue;
         }
-        let p = if roots.contains(&t.name) { 200 } else { 110 };
-        if !c.bool(p) {
+        // roots always get at least one composite-typed field, so that operations can go deep
+        let is_root = roots.contains(&t.name);
+        if !is_root && !c.bool(140) {
             continue;
         }
         let k = 1 + c.small(2);
-        for _ in 0..k {
-            let named = if c.bool(140) && !composites.is_empty() { composites[c.choose(composites.len())].clone() } else { outputs[c.choose(outputs.len())].clone() };
+        for j in 0..k {
+            let named = if ((is_root && j == 0) || c.bool(140)) && !composites.is_empty() { composites[c.choose(composites.len())].clone() } else { outputs[c.choose(outputs.len())].clone() };
             let pat = if c.bool(40) { ["T", "T!"][c.choose(2)] } else { WRAPS[c.choose(WRAPS.len())] };
             t.fields.push(FieldDef { description: None, name: format!("l{}", n_extra), args: vec![], ty: wrap_pattern(pat, &named), directives: vec![] });
             n_extra += 1;
@@ -370,7 +372,7 @@ impl<'a> G<'a> {
         let fields: Vec<FieldDef> = s.get(parent).map(|t| t.fields.clone()).unwrap_or_default();
         // at the depth bound only leaf fields and __typename
         let usable: Vec<&FieldDef> = fields.iter().filter(|f| depth < self.o.max_depth || !s.is_composite(f.ty.inner_name())).collect();
-        let n = 1 + c.small(4);
+        let n = if depth <= 1 { 2 + c.small(4) } else { 1 + c.small(4) };
         let mut out: Vec<Selection> = vec![];
         for _ in 0..n {
             if self.budget == 0 {
@@ -382,7 +384,9 @@ impl<'a> G<'a> {
             let w_dup = if out.is_empty() { 0 } else { 8 };
             match c.weighted(&[w_field, 8, w_frag, w_frag, w_dup]) {
                 0 if w_field > 0 => {
-                    let def = usable[c.choose(usable.len())].clone();
+                    // prefer fields that open a sub-selection, so that operations get deep
+                    let deep: Vec<&&FieldDef> = usable.iter().filter(|f| s.is_composite(f.ty.inner_name())).collect();
+                    let def = if !deep.is_empty() && c.bool(130) { (**deep[c.choose(deep.len())]).clone() } else { usable[c.choose(usable.len())].clone() };
                     out.push(self.field(c, parent, &def, depth));
                 }
                 2 => {
@@ -468,7 +472,7 @@ impl<'a> G<'a> {
 /// A valid operation (with its fragments) against `s`.
 pub fn operation(c: &mut Choices, s: &RefSchema, o: &Opts) -> (Document, Vec<&'static str>) {
     let mut g = G { s, o, vars: vec![], frags: vec![], n_frags: 0, keys: BTreeMap::new(), n_alias: 0, budget: o.budget, features: vec![] };
-    let op = if o.mutations && s.mutation.is_some() && c.bool(70) { OpType::Mutation } else { OpType::Query };
+    let op = if o.mutations && s.mutation.is_some() && c.bool(o.mutation_p) { OpType::Mutation } else { OpType::Query };
     let root = s.root(op).unwrap_or("Query").to_string();
     let mut selection_set = g.selection_set(c, &root, 1);
     if op == OpType::Query && o.introspection_meta && c.bool(10) {
@@ -501,7 +505,14 @@ pub fn case(bytes: &[u8], o: &Opts) -> Case {
     let op_text = printer::print_document(&op_doc);
     let var_defs = op_doc.defs.iter().find_map(|d| if let Definition::Operation(o) = d { Some(o.vars.clone()) } else { None }).unwrap_or_default();
     let mut jg = JsonGen::new(&schema, 0);
-    let variables = if var_defs.is_empty() { serde_json::Map::new() } else { jg.variables(&mut c, &var_defs) };
+    let mut variables = if var_defs.is_empty() { serde_json::Map::new() } else { jg.variables(&mut c, &var_defs) };
+    // an explicit null for a Non-Null variable (that has a default) is a request error: leave the
+    // variable out instead, so that its default applies
+    for d in &var_defs {
+        if d.ty.is_non_null() && variables.get(&d.name).map(|v| v.is_null()).unwrap_or(false) {
+            variables.remove(&d.name);
+        }
+    }
     Case { schema_doc, schema, sdl, op_doc, op_text, var_defs, variables, features }
 }
 
